@@ -73,6 +73,15 @@ Theorem between_meaning bl s l x a b : beval clean bl s l (BBetween x a b) = tru
   Z.min (fst (neval bl s l a)) (fst (neval bl s l b)) < fst (neval bl s l x) < Z.max (fst (neval bl s l a)) (fst (neval bl s l b)).
 Proof. cbn. rewrite andb_true_iff, !Z.ltb_lt. tauto. Qed.
 
+(** all(): every header has a value on this line — the line has exactly as many cells as there are headers and no cell is blank *)
+Theorem all_cells_meaning q bl s l nh : beval q bl s l (BAllCells nh) = true <->
+  length l = nh /\ Forall (fun t => strip t <> []) l.
+Proof.
+  cbn [beval]. rewrite andb_true_iff, Nat.eqb_eq, forallb_forall, Forall_forall. split; intros [H1 H2]; (split; [exact H1|]).
+  - intros t Ht. specialize (H2 t Ht). unfold is_blank_text in H2. destruct (strip t); [discriminate|discriminate].
+  - intros t Ht. specialize (H2 t Ht). unfold is_blank_text. destruct (strip t); [contradiction|reflexivity].
+Qed.
+
 Theorem numeric_cells_compare_as_numbers bl s l o i j :
   beval clean bl s l (BCmp o (NHdr i) (NHdr j)) = cmp_num clean o (fst (neval bl s l (NHdr i))) (fst (neval bl s l (NHdr j))).
 Proof. reflexivity. Qed.
